@@ -126,6 +126,33 @@ PROPS["C13"] = dict(
     trusted=COMMON_TRUST, excluded=["update_rtt (touches only RTT statistics, frame-checked syntactically)"],
 )
 
+PROPS["C02"] = dict(
+    units=["limiter"],
+    title="Rate limiter admits at most limit_for_period calls per window",
+    level_text="Deductive proof (Verus) on the real bodies of the three window states, the dispatcher, SharedRateLimiter::acquire and RateLimiter::call: Ok(ZERO) is returned exactly when a permit/log entry/count was consumed "
+               "(recorded in the task's trace), a fixed window or bucket is replaced only when it is at least refresh_period old and starts full/empty, available <= limit and current_count <= limit are invariants, the sliding log "
+               "evicts exactly the entries at least window_duration old (loop invariant) and admits iff fewer than limit remain; acquire returns Ok iff this task took exactly one permit (also after waiting); the inner call "
+               "is made only with that permit. Per-step inductive clauses; for all limits, periods, timeouts, arrival instants.",
+    level_note="Mutex critical sections atomic (between two sections any contracted operation of other tasks may have run); monotone clock; limit >= 1, refresh_period > 0, instant + window representable. "
+               "Sliding counter: float comparisons are lifted leaves (weighted < limit implies current < limit: Kani); the global 'windows partition time' statement is the induction over the per-step clauses (meta-argument).",
+    technique="contract-based deductive verification (Verus): state invariants + effect trace; Kani float leaves",
+    design_ref="§6 C02",
+    assumptions=["std Mutex critical sections are atomic (R8)", "monotone clock", "limit_for_period >= 1 and refresh_period > 0", "estimate_wait_time(..) > 0 whenever no slot is free (IEEE assumption)"],
+    trusted=COMMON_TRUST, excluded=["fairness among waiters", "the global window-partition lemma is a meta-argument over the per-step clauses, not a machine-checked lemma"],
+)
+PROPS["C15"] = dict(
+    units=["limiter"],
+    title="Rate limiter decides within timeout; rejected calls go nowhere",
+    level_text="Deductive proof (Verus), same unit as C02: every wait returned by try_acquire is at most timeout_duration and acquire sleeps at most that in total, with no other await; Err when the next slot is beyond the timeout; "
+               "a rejected call makes no inner call and returns RateLimited, an admitted call makes exactly one with the unchanged request; immediate admission when the window has capacity; after a full idle period the fixed window "
+               "admits at once, after two idle bucket periods the sliding counter has forgotten both buckets.",
+    level_note="Timer accuracy is tokio's (sleep(d) waits at least d); 'idle two periods' for the sliding counter rests on the float leaf elapsed >= 2*bucket => buckets_passed >= 2 (Kani, thorough tier).",
+    technique="contract-based deductive verification (Verus): effect-trace contract on acquire/call, state contracts on the window kernels",
+    design_ref="§6 C15",
+    assumptions=["tokio::time::sleep(d) completes after d", "monotone clock", "a caller cancelled while sleeping holds no permit (permits are only taken at Ok(ZERO))"],
+    trusted=COMMON_TRUST, excluded=["timer accuracy"],
+)
+
 NOT_APPLICABLE = {
     "C12": "not built: hedge's body is a tokio::select! loop over spawned tasks; needs the select!/spawn rewrite R17 (DESIGN §7); nothing weaker is claimed in its place",
 }
